@@ -11,4 +11,4 @@ for p in "$@"; do
   echo "$out" | grep -E '^  (violation|detail)' | head -4
 done
 git -C /repo checkout -- . 
-find /verif/replays -name "*.json" -delete
+find /verif/replays -name "*.json" -delete; git -C /verif checkout -- evidence 2>/dev/null
